@@ -432,6 +432,30 @@ def _tracer(repo, col, R="R-C18-tracer"):
         if not jcalls:
             continue
         n += 1
+        # the operands too: a local that was computed with jax OUTSIDE the guard is already a tracer, and indexing / combining a
+        # concrete array with a tracer gives a tracer even inside ensure_compile_time_eval()
+        def outside_operand(expr, depth=0, seen_names=()):
+            for nm in [x for x in ast.walk(expr) if isinstance(x, ast.Name) and isinstance(x.ctx, ast.Load)]:
+                if nm.id in seen_names:
+                    continue
+                for a_ in ast.walk(e.fi.node):
+                    if isinstance(a_, ast.Assign) and any(isinstance(t_, ast.Name) and t_.id == nm.id for t_ in a_.targets) and a_ is not st:
+                        jc = [c for c in ast.walk(a_.value) if isinstance(c, ast.Call) and isinstance(c.func, ast.Attribute) and
+                              unparse(c.func).split(".")[0] in ("jnp", "jax", "lax")]
+                        if jc and not enclosing_cte(e.fi, a_):
+                            return a_
+                        if depth < 3:
+                            r_ = outside_operand(a_.value, depth + 1, seen_names + (nm.id,))
+                            if r_ is not None:
+                                return r_
+            return None
+        if enclosing_cte(e.fi, st):
+            op_ = outside_operand(val)
+            col.check(op_ is None, R, e.fi, f"{e.fi.qual}: the operands of `{unparse(st)[:50]}` are concrete as well",
+                      "every jax-computed operand is computed inside the guard",
+                      f"`{unparse(op_)[:70] if op_ is not None else ''}` is computed with jax OUTSIDE `ensure_compile_time_eval()` and then used in "
+                      f"`{unparse(st)[:60]}`: under jax.jit it is a tracer, so the stored value is a tracer too (the guard only helps for "
+                      f"operations on concrete operands); pickle / deepcopy of the module fail afterwards", node=op_ or st)
         col.check(enclosing_cte(e.fi, st), R, e.fi, f"{e.fi.qual}: `{unparse(st)[:60]}` stores a concrete array on the module",
                   "inside `with ensure_compile_time_eval()`",
                   f"`{unparse(st)[:80]}` computes the stored value with jax ({unparse(jcalls[0].func)}) outside "
